@@ -232,8 +232,10 @@ def check_prefix_clause(ns, out, case, asn, d, alpha, N, label):
     for sim in case["sims"]:
         try:
             with W.quiet():
-                est = asn.find_sample_size(data=np.array(d), prefix=True, reps=sim["reps"], quantile=sim["quantile"], seed=sim["seed"])
-                est2 = asn.find_sample_size(data=np.array(d), prefix=True, reps=sim["reps"], quantile=sim["quantile"], seed=sim["seed"])
+                # (the flag is documented as a bool; a numpy comparison result or 1 is as true as True)
+                flag = [True, np.True_, 1][int(sim["seed"]) % 3]
+                est = asn.find_sample_size(data=np.array(d), prefix=flag, reps=sim["reps"], quantile=sim["quantile"], seed=sim["seed"])
+                est2 = asn.find_sample_size(data=np.array(d), prefix=flag, reps=sim["reps"], quantile=sim["quantile"], seed=sim["seed"])
         except Exception as e:
             out.raised("find_sample_size(prefix)", e)
             out.violate("C16.a", f"raised-{type(e).__name__}", f"{label}: simulation-based estimate raised {e!r}")
@@ -346,7 +348,8 @@ def execute(case):
             for sim in case["sims"]:
                 try:
                     with W.quiet():
-                        e1 = tst.sample_size(np.array(x), alpha=alpha, reps=sim["reps"], prefix=True, quantile=sim["quantile"], seed=sim["seed"])
+                        e1 = tst.sample_size(np.array(x), alpha=alpha, reps=sim["reps"], prefix=[True, np.True_, 1][int(sim["seed"]) % 3],
+                                             quantile=sim["quantile"], seed=sim["seed"])
                 except Exception as e:
                     out.raised("sample_size(prefix)", e)
                     continue
@@ -630,8 +633,15 @@ def execute_audit(ns, out, case):
                             d[np.arange(0, len(d), math.floor(1 / audit.error_rate_2))] = asn.make_overstatement(overs=1)
                         e = asn.find_sample_size(data=d, reps=audit.reps, quantile=audit.quantile, seed=audit.sim_seed)
                     elif data_of is None:
-                        e = asn.find_sample_size(data=None, rate_1=audit.error_rate_1, rate_2=audit.error_rate_2, reps=audit.reps,
-                                                 quantile=audit.quantile, seed=audit.sim_seed)
+                        # the comparison hypothetical, built here (not by the routine under test, which may be asked several
+                        # times with different rates): error-free values, a one-vote overstatement at every int(1/rate_1)-th
+                        # position, a zero at every int(1/rate_2)-th (the latter prevailing)
+                        x_ref = np.full(int(asn.test.N), asn.make_overstatement(overs=0), dtype=float)
+                        if audit.error_rate_1:
+                            x_ref[np.arange(0, len(x_ref), int(1 / audit.error_rate_1))] = asn.make_overstatement(overs=1 / 2)
+                        if audit.error_rate_2:
+                            x_ref[np.arange(0, len(x_ref), int(1 / audit.error_rate_2))] = 0
+                        e = asn.find_sample_size(data=x_ref, reps=audit.reps, quantile=audit.quantile, seed=audit.sim_seed)
                     else:
                         e = asn.find_sample_size(data=data_of[(cid, key)], prefix=True, reps=audit.reps, quantile=audit.quantile,
                                                  seed=audit.sim_seed)
